@@ -42,7 +42,7 @@ MIN_COUNTERS = {
     'thorough': {'rt_resumptions_checked': 100000, 'nrt_resumptions_checked': 200000,
                  'rt_programs_finished': 2000, 'nrt_programs': 20000},
 }
-FEATURES = ('tempo', 'cond', 'flow', 'call', 'embed')
+FEATURES = ('tempo', 'cond', 'flow', 'call', 'embed', 'resched')
 
 
 def plan(tier, seed):
@@ -188,8 +188,14 @@ def run_rt(spec, acc):
                 r = Run(prog, 'rt', on_done, tag=case)
                 runs.append((r, prog))
                 case += 1
-            for r, _ in runs:
-                r.start()
+            for k, (r, _) in enumerate(runs):
+                # from this plain thread, while the clock threads are busy with
+                # the programs started before: play(), or sched(delta) whose
+                # base is this thread's time = physical now
+                if k % 2:
+                    r.start(delta=rng.choice([0, 0, 0.001, 0.004, 0.02]))
+                else:
+                    r.start()
             done_ev.wait(10.0)
             with main._main_lock:
                 snap = [(r, p, r.done) for r, p in runs]
@@ -207,6 +213,15 @@ def run_rt(spec, acc):
                 for f in feats:
                     acc.count('feature_' + f)
                 report_fails(r, acc, 'rt', prog)
+                if r.start_window is not None and r.T0 is not None:
+                    acc.count('rt_thread_sched_starts_checked')
+                    lo, hi = r.start_window
+                    if not (lo - 1e-6 <= r.T0 <= hi + 1e-6):
+                        acc.violation(
+                            'C05/start-time-not-call-time-plus-delta/SystemClock.sched'
+                            '-from-thread/rt',
+                            {'case': r.tag, 'T0': r.T0, 'window': [lo, hi],
+                             'T0_minus_lo': r.T0 - lo, 'T0_minus_hi': r.T0 - hi})
                 if acc.want_sample() and nt and len(json.dumps(prog)) < 900:
                     acc.sample({'mode': 'rt', 'program': prog, 'log_head': r.log[:8]})
                 r.stop_clocks()
